@@ -58,8 +58,8 @@ def eff(name, outcome, ignore):
 def _events_match(w, hooks):
     ok = True
     for name, h in hooks.items():
-        n = len([1 for (t, topic, o) in w.events if topic.endswith('.hook_success') and o.get('name') == name]) + \
-            len([1 for (t, topic, o) in w.events if topic.endswith('.hook_failure') and o.get('name') == name])
+        n = len([1 for (t, topic, o) in w.events if topic == 'watcher.a.hook_success' and o.get('name') == name]) + \
+            len([1 for (t, topic, o) in w.events if topic == 'watcher.a.hook_failure' and o.get('name') == name])
         if n != h.calls:
             rt.note('hook %s called %d times, %d hook_success/hook_failure events', name, h.calls, n)
             ok = False
@@ -91,8 +91,12 @@ def c14_start(c1: int, c2: int, c3: int, c4: int, fc: int) -> bool:
             hooks[name] = h
             hk[name] = (h, bool(c % 2))
         n0 = S.get('n0', 2)
+        # another watcher, created first, whose hooks all carry the ignore-failure flag: flags are per watcher
+        other = dict((name, (Hook(name, TRUE), True)) for name in START_HOOKS + STOP_HOOKS)
+        wz = w.mk_watcher('z', numprocesses=1, graceful_timeout=0.2, hooks=other)
         wa = w.mk_watcher('a', numprocesses=n0, graceful_timeout=0.2, hooks=hk, autostart=False)
-        w.boot([wa], check_delay=-1)
+        w.boot([wz, wa], check_delay=-1)
+        k.spawn_log[:] = [rec for rec in k.spawn_log if rec['tag'] != 'z']
         try:
             r = w.call('start', name='a', waiting=True, match='simple', max_time=20.0)
             w.run_for(1.0)
